@@ -419,7 +419,34 @@ def generate_pool_settings(repo=None):
     if len(guards) > 1 or (guards and ast.unparse(guards[0].test) != "not executor_is_reused"):
         raise translate.TranslateError("translation of get_memmapping_executor no longer matches: guard of the manager assignment")
     new_mgr_on_reuse = not guards
+    # the settings are USED by the reducers: does each pool / executor hand mmap_mode and max_nbytes on to get_memmapping_reducers
+    def passes_kw(pathname, qual, keys):
+        f2, _ = translate.find_function(pathname, qual)
+        calls2 = [n for n in ast.walk(f2) if isinstance(n, ast.Call) and ast.unparse(n.func) == "get_memmapping_reducers"]
+        if len(calls2) != 1:
+            raise translate.TranslateError("translation of %s no longer matches: get_memmapping_reducers(...) call" % qual)
+        kws = {k.arg: ast.unparse(k.value) for k in calls2[0].keywords}
+        named = [a.arg for a in f2.args.args + f2.args.kwonlyargs]
+        out = {}
+        for key in keys:
+            if kws.get(key) == key and key in named:
+                out[key] = True                      # passed explicitly, from the parameter of the same name
+            elif key not in kws and None in kws and kws[None] == (f2.args.kwarg.arg if f2.args.kwarg else "") and key not in named:
+                out[key] = True                      # travels inside **backend_args
+            elif key not in kws:
+                out[key] = False
+            else:
+                raise translate.TranslateError("translation of %s no longer matches: %s=%s" % (qual, key, kws.get(key)))
+        return out
+    pool_py = os.path.join(repo, "joblib", "pool.py")
+    mp_pass = passes_kw(pool_py, "MemmappingPool.__init__", ("mmap_mode", "max_nbytes"))
+    lk_pass = passes_kw(exf, "MemmappingExecutor.get_memmapping_executor", ("mmap_mode", "max_nbytes"))
+    used_defs = "".join("Definition %s : bool := %s.\n" % (n, "true" if v else "false") for n, v in (
+        ("mp_pool_passes_mmap_mode", mp_pass["mmap_mode"]), ("mp_pool_passes_max_nbytes", mp_pass["max_nbytes"]),
+        ("loky_executor_passes_mmap_mode", lk_pass["mmap_mode"]), ("loky_executor_passes_max_nbytes", lk_pass["max_nbytes"])))
     text = POOL_HEADER + (
+        "(* joblib/pool.py (MemmappingPool.__init__) and joblib/executor.py (get_memmapping_executor): are mmap_mode / max_nbytes handed\n"
+        "   on to get_memmapping_reducers, i.e. do they reach the place where they are USED *)\n" + used_defs + "\n") + (
         "(* joblib/executor.py (get_memmapping_executor): does the reuse decision look at temp_folder; is the new\n"
         "   TemporaryResourcesManager(temp_folder) installed on an executor that is REUSED *)\n"
         "Definition reuse_key_has_temp_folder : bool := %s.\nDefinition reused_executor_gets_new_manager : bool := %s.\n\n" % (
